@@ -89,6 +89,16 @@ CLAIMED = {
          "refusals and 'source never modified'."),
    note=BASE_NOTE + "Degenerate results (empty selection, duplicated index-array entries) are outside the property and only "
         "recorded. numpy indexing itself is compared, not verified."),
+ "C14": dict(
+   technique="Coq proof by induction over operation programs (relation between kept statistics and moments of the raw data) + extracted-model correspondence",
+   text=("C14_holds: for every program of constructions, fills, fill_n batches, additions, copies, rescalings, subtractions and "
+         "array operations, the statistics record the code maintains is related at every step to the moments (sum w*v, sum "
+         "w*v^2, min, max, sum w; median after unweighted construction) of the raw data the variable stands for, and has NaN sum/"
+         "sum2/weight when it cannot be maintained; plus chunk-additivity, fill = one pair, rescaling, variance = central moment, "
+         "NaN propagation to mean/variance. Every generated program is executed on physt; all six fields, mean(), variance() and "
+         "std()**2 are read after every step and checked by the extracted specification."),
+   note=BASE_NOTE + "Data are generated strictly inside the bins (as the property states) with dyadic values/weights so that "
+        "float sums are exact; np.median and python min/max are modelled by their documented meaning."),
  "C10": dict(
    technique="Coq proof (induction over arbitrary frequency lists / N-d arrays) + extracted-model correspondence",
    text=("Theorems (all sizes, all dimensions, closed under the global context): the min_frequency loop always yields a gap-free "
